@@ -2,7 +2,8 @@
    Translation by whole grid cells = multiplication of mode k by a character chi(k) (shift theorem); every model operation commutes with
    this twist, for ALL states.  Models: DFT/DFT1.v, Nonlin/Conv.v, Nonlin/Terms.v, Gen/ETDRK.v (translated), Spectral/Symbols.v. *)
 From Coq Require Import ZArith QArith List Bool Lia.
-From EXV Require Import Base.Scalar Base.FieldLemmas Spectral.Symbols Layout.Freq DFT.DFT1 Nonlin.Conv Nonlin.Terms Gen.ETDRK Steppers.Symmetry.
+From EXV Require Import Base.Scalar Base.FieldLemmas Spectral.Symbols Layout.Freq DFT.DFT1 Nonlin.Conv Nonlin.Terms Gen.ETDRK Steppers.Symmetry Nonlin.Permute.
+From Coq Require Import Permutation.
 Import ListNotations.
 Local Open Scope fld_scope.
 Ltac splits := repeat match goal with |- _ /\ _ => split end.
@@ -73,3 +74,22 @@ Proof.
   splits; try assumption. apply poly_sym_swap2. exact H5.
 Qed.
 Print Assumptions C08_isotropy_and_embedding.
+
+(* axis permutations: re-labelling the axes of the spectrum (sigma = permi p, p any permutation of the axes) commutes with the pseudo-spectral
+   product and with the isotropic scalar terms (both single-channel convection forms, the gradient norm with and without the mean fix):
+   the term of the permuted field is the permuted term - every D, N, band, every state, every stored mode *)
+Theorem C08_terms_commute_with_axis_permutations : forall (F : FieldT) (D : nat) (N Kc : Z) (p : list nat) (ii s b : F) (zf : bool),
+  (0 < N)%Z -> (0 <= Kc)%Z -> Permutation p (seq 0 D) ->
+  forall (u v : field F) (k : idx), length k = D ->
+  prod2 F D N Kc (relabel F p u) (relabel F p v) k = prod2 F D N Kc u v (permi p k)
+  /\ conv_sc_cons F (prod2 F D N Kc) ii s D b (relabel F p u) k = conv_sc_cons F (prod2 F D N Kc) ii s D b u (permi p k)
+  /\ conv_sc_noncons F (prod2 F D N Kc) ii s D b (relabel F p u) k = conv_sc_noncons F (prod2 F D N Kc) ii s D b u (permi p k)
+  /\ gradient_norm F (prod2 F D N Kc) ii s D b zf (relabel F p u) k = gradient_norm F (prod2 F D N Kc) ii s D b zf u (permi p k).
+Proof.
+  intros F D N Kc p ii s b zf HN HK Hp u v k Hl. splits.
+  - apply prod2_relabel; assumption.
+  - apply conv_sc_cons_relabel; assumption.
+  - apply conv_sc_noncons_relabel; assumption.
+  - apply gradient_norm_relabel; assumption.
+Qed.
+Print Assumptions C08_terms_commute_with_axis_permutations.
